@@ -46,6 +46,7 @@ class Ctx:
         os.environ["TMPDIR"] = self.work
         import tempfile
         tempfile.tempdir = self.work
+        self._owner = os.getpid()
         atexit.register(self._cleanup)
         # bookkeeping
         self.states = 0
@@ -64,7 +65,10 @@ class Ctx:
 
     # ------------------------------------------------------------------ scratch
     def _cleanup(self):
-        shutil.rmtree(self.work, ignore_errors=True)
+        # forked children inherit the atexit handler: only the process that owns the scratch directory removes it
+        # (a helper child leaving through sys.exit() once removed it under its running parent: FileNotFoundError in mkdtemp)
+        if os.getpid() == self._owner:
+            shutil.rmtree(self.work, ignore_errors=True)
 
     def path(self, name: str) -> str:
         return os.path.join(self.work, name)
